@@ -442,6 +442,9 @@ pub fn run(ctx: &mut Ctx) {
     if ctx.mode.as_deref() == Some("net") {
         return super::c11net::run(ctx);
     }
+    if ctx.mode.as_deref() == Some("live") {
+        return super::c11live::run(ctx);
+    }
     let rt = act::runtime(2);
     let three = ctx.mode.as_deref() == Some("three");
     rt.block_on(async {
